@@ -22,14 +22,18 @@ CHECKS = {
              "fairness). Binding: TLC-generated behaviours are replayed through the real Simulator/EventQueue/"
              "ChargingNetwork/EVSE and compared at every scheduler invocation, every applied period and at the end; "
              "traces of real schedulers are validated against the spec. Long horizons (about 20 periods, 3 stations) are sampled; "
-             "Simulator.step() is modelled separately (AcnSimStep.tla) and replayed.",
-        tech="TLA+ spec (AcnSim.tla) + TLC invariants/liveness + spec-to-code behaviour replay + code-to-spec trace validation",
+             "Simulator.step() is modelled separately (AcnSimStep.tla) and replayed. Scenarios include stray (second) Unplug "
+             "events for sessions that are gone. Network.tla drives ChargingNetwork directly with arbitrary call sequences "
+             "(plug-in / unplug forms incl. deprecated and mismatched ones) and owns C01's plug/unplug discipline there.",
+        tech="TLA+ specs (AcnSim.tla, AcnSimStep.tla, Network.tla) + TLC invariants/liveness + spec-to-code behaviour replay + "
+             "code-to-spec trace validation",
         ref="5/C01", note=ACN_NOTE),
     "C02": dict(
         text="Ledger, VacantZero, PeakIsMax, RateBounds are invariants of AcnSim.tla (energy in exact integer W*min). "
              "Replay compares three separately stored implementation quantities (charging_rates*V*T, EV energy, battery "
-             "charge), peak and total energy with the spec after every period.",
-        tech="TLA+ spec (AcnSim.tla) + TLC invariants + spec-to-code behaviour replay",
+             "charge), peak and total energy with the spec after every period; Network.tla adds the per-EV ledger and "
+             "current_charging_rates across direct network calls.",
+        tech="TLA+ specs (AcnSim.tla, Network.tla) + TLC invariants + spec-to-code behaviour replay",
         ref="5/C02", note=ACN_NOTE),
     "C04": dict(
         text="PilotsMatchSubmissions compares the pilot matrix with an independent definition from the submission log; "
@@ -54,8 +58,12 @@ CHECKS = {
              "says, optionally round-trips through JSON, resumes, and compares every later step and the final state with "
              "the spec (hence with the uninterrupted run), object sharing after load included; DumpLoad is also enabled before "
              "the first run() and after completion; every scalar attribute of simulator, EVSEs, EVs and batteries is compared "
-             "across the round trip; two-stage batteries (continuous, tau 0.6, stepwise) are compared run-vs-twin.",
-        tech="TLA+ spec (AcnSim.tla) + TLC invariants/action properties + spec-to-code replay with interruption-free twin",
+             "across the round trip; two-stage batteries (continuous, tau 0.6, stepwise) are compared run-vs-twin. Serial.tla "
+             "models the id-based JSON mechanism itself over arbitrary object graphs with freely chosen sharing (Isomorphic: "
+             "two paths lead to one object after loading iff they did before); every emitted heap is built from the real "
+             "classes, dumped, loaded, compared by identity structure and attributes, and resumed.",
+        tech="TLA+ specs (AcnSim.tla, Serial.tla) + TLC invariants/action properties + spec-to-code replay with "
+             "interruption-free twin + object-graph replay",
         ref="5/C09", note=ACN_NOTE + " Naive datetime start."),
     "C10": dict(
         text="The spec state is keyed by identity, so order independence holds in the model by construction; the "
@@ -73,8 +81,10 @@ CHECKS["C13"] = dict(
          "through the real EVSE classes, the network cache and the Interface accessors, comparing outcome, pilot, "
          "occupant, EV energy and battery charge after each call; finite level lists are handed over as list, tuple, ndarray, "
          "generator, iterator or dict view, a companion station of the same class shares the network, and what is advertised "
-         "is re-read after a caller mutated the description it was handed.",
-    tech="TLA+ spec (EVSE.tla) + TLC invariants/action properties + exhaustive spec-to-code replay",
+         "is re-read after a caller mutated the description it was handed. RoundTrip (JSON dump + load of the station) is an "
+         "action: the loaded station advertises and accepts what the original did. Network.tla adds refused plug-ins and "
+         "invalid pilots at network level (update_pilots stops at the refusing station).",
+    tech="TLA+ specs (EVSE.tla, Network.tla) + TLC invariants/action properties + exhaustive spec-to-code replay",
     ref="5/C13", note="Trusted: TLC, replay harness. Probes never sit exactly on +-1e-3 A (undecidable in floats); "
                       "accepted negative pilots only on a vacant station.")
 
@@ -207,7 +217,7 @@ CHECKS["C14"] = dict(
                       "(<= 0.4 % of one period's maximum dSoC at K=128, 0.2 % at K=256); the identities are evaluated on "
                       "the real battery at 1e-9 and do not inherit that width.")
 CHECKS["C11"] = dict(
-    text="EventQueue.tla models the pending set with Add, AddMany, GetEvent (any event of minimal (time, precedence)), "
+    text="EventQueue.tla models the pending set with Add, AddMany, AddManyFail (a batch whose source raises midway), GetEvent (any event of minimal (time, precedence)), "
          "GetCurrent(t), the queries and the JSON round trip; TLC decides theorems T1-T8 (order, exact split at t, "
          "conservation, queries reflect the pending set, round trip = identity, drain sorted) over all call sequences, "
          "and that the heapq/tuple mechanism refines it (EventQueueHeap.tla, with a negative control). Binding is a "
@@ -248,8 +258,11 @@ CHECKS["C07"] = dict(
          "compared exactly, step transcript included; continuous bisection results and every scheduler invocation of "
          "closed-loop Simulator.run() on generated three-phase networks are re-executed and judged by TLC "
          "(SortedAlgoTrace.tla); the runs are also watched for infeasible-schedule warnings, InvalidRateError and "
-         "energy above the request.",
-    tech="TLA+ spec (SortedAlgo.tla) + TLC invariants + spec-to-code case replay + code-to-spec batch trace validation",
+         "energy above the request. Rampdown.tla models how SimpleRampdown computes and carries the estimator's bound across "
+         "invocations (down/up/hold rules, preprocessing on top, grant <= max(bound, minimum pilot)); its behaviours are "
+         "replayed through real schedulers and real closed-loop simulations are validated by RampdownTrace.tla.",
+    tech="TLA+ specs (SortedAlgo.tla, Rampdown.tla) + TLC invariants/action properties + spec-to-code case replay + "
+         "code-to-spec batch trace validation",
     ref="5/C07", note=SORTED_NOTE)
 CHECKS["C08"] = dict(
     text="On SortedAlgo.tla TLC checks GreedyMaximal (defined independently on the final schedule: higher-priority "
